@@ -718,3 +718,205 @@ def product(domains: Dict[str, Sequence]) -> Iterable[Dict[str, object]]:
     keys = list(domains)
     for combo in itertools.product(*[domains[k] for k in keys]):
         yield dict(zip(keys, combo))
+
+
+# ------------------------------------------------------------------------------------------------
+# integer intervals with the int methods the back-off arithmetic uses, and symbolic upper bounds
+# ------------------------------------------------------------------------------------------------
+
+
+def eval_int_interval(e: ast.AST, env: Dict[str, 'absdom.Interval']) -> 'absdom.Interval':
+    """Interval semantics of non-negative integer expressions: everything engines/absdom.eval_interval knows (+ - * // << ** min max
+    randrange randint int) plus the monotone int operations `x.bit_length()` / `int.bit_length(x)`, `x >> k`, `abs(x)` and `max`/`min`
+    of any arity.  Every operator is evaluated at the corners of its operand intervals (all are monotone on non-negative operands)."""
+    from . import absdom
+    I = absdom.Interval
+    if isinstance(e, ast.Call):
+        f = e.func
+        if isinstance(f, ast.Attribute) and f.attr == 'bit_length' and not e.keywords:
+            recv = None
+            if not e.args and pf.dotted(f) != 'int.bit_length':
+                recv = f.value
+            elif len(e.args) == 1 and pf.dotted(f) == 'int.bit_length':
+                recv = e.args[0]
+            if recv is not None:
+                v = eval_int_interval(recv, env)
+                if v.lo < 0:
+                    raise AnalysisError('interval evaluation: bit_length of a possibly negative value')
+                return I(v.lo.bit_length(), v.hi.bit_length())
+        name = pf.dotted(f) or ''
+        if name in ('min', 'max') and len(e.args) >= 2 and not e.keywords:
+            args = [eval_int_interval(a, env) for a in e.args]
+            pick = min if name == 'min' else max
+            return I(pick(a.lo for a in args), pick(a.hi for a in args))
+        if name in ('random.randrange', 'randrange') and len(e.args) == 1 and not e.keywords:
+            a = eval_int_interval(e.args[0], env)
+            if a.lo < 1:
+                raise AnalysisError('interval evaluation: randrange of a possibly non-positive bound')
+            return I(0, a.hi - 1)
+        if name in ('random.randint', 'randint') and len(e.args) == 2 and not e.keywords:
+            a, b = eval_int_interval(e.args[0], env), eval_int_interval(e.args[1], env)
+            return I(a.lo, b.hi)
+        if name in ('int', 'abs') and len(e.args) == 1 and not e.keywords:
+            a = eval_int_interval(e.args[0], env)
+            if name == 'abs' and a.lo < 0:
+                raise AnalysisError('interval evaluation: abs of a possibly negative value')
+            return a
+        raise AnalysisError(f'interval evaluation: unsupported call {pf.nsrc(f)}')
+    if isinstance(e, ast.BinOp):
+        a = eval_int_interval(e.left, env)
+        b = eval_int_interval(e.right, env)
+        if isinstance(e.op, ast.RShift):
+            if b.lo < 0 or b.hi > 4096 or a.lo < 0:
+                raise AnalysisError('interval evaluation: shift out of range')
+            return I(a.lo >> b.hi, a.hi >> b.lo)
+        # re-use the shared evaluator on the operand intervals
+        tmp = {'__a': a, '__b': b}
+        return absdom.eval_interval(ast.BinOp(left=ast.Name(id='__a', ctx=ast.Load()), op=e.op, right=ast.Name(id='__b', ctx=ast.Load())), tmp)
+    if isinstance(e, ast.IfExp):
+        raise AnalysisError(f'interval evaluation: conditional expression `{pf.nsrc(e)}`')
+    return absdom.eval_interval(e, env)
+
+
+def eval_straightline_int(fn: ast.FunctionDef, env: Dict[str, 'absdom.Interval']) -> 'absdom.Interval':
+    """A function whose body is assignments followed by one return, evaluated with eval_int_interval."""
+    env = dict(env)
+    for st in fn.body:
+        if isinstance(st, ast.Expr) and isinstance(st.value, ast.Constant):
+            continue
+        if isinstance(st, ast.Assign) and len(st.targets) == 1 and isinstance(st.targets[0], ast.Name):
+            env[st.targets[0].id] = eval_int_interval(st.value, env)
+        elif isinstance(st, ast.AnnAssign) and isinstance(st.target, ast.Name) and st.value is not None:
+            env[st.target.id] = eval_int_interval(st.value, env)
+        elif isinstance(st, ast.Return) and st.value is not None:
+            return eval_int_interval(st.value, env)
+        else:
+            raise AnalysisError(f'{fn.name}: not straight-line (line {st.lineno}: {type(st).__name__})')
+    raise AnalysisError(f'{fn.name}: no return')
+
+
+class UB:
+    """A symbolic upper bound  sum(coef[atom] * atom) + const  over atoms that denote non-negative quantities (source texts)."""
+    __slots__ = ('coef', 'const')
+
+    def __init__(self, coef: Optional[Dict[str, Fraction]] = None, const: Fraction = Fraction(0)):
+        self.coef = {k: Fraction(v) for k, v in (coef or {}).items() if v != 0}
+        self.const = Fraction(const)
+
+    def __add__(self, o: 'UB') -> 'UB':
+        c = dict(self.coef)
+        for k, v in o.coef.items():
+            c[k] = c.get(k, Fraction(0)) + v
+        return UB(c, self.const + o.const)
+
+    def scale(self, k: Fraction) -> 'UB':
+        return UB({a: v * k for a, v in self.coef.items()}, self.const * k)
+
+    def key(self) -> Tuple:
+        return (tuple(sorted(self.coef.items())), self.const)
+
+    def below(self, atom: str) -> bool:
+        """Is this bound <= atom for every non-negative valuation?"""
+        return self.const <= 0 and all(v <= 0 or (a == atom and v <= 1) for a, v in self.coef.items())
+
+    def show(self) -> str:
+        parts = [(f'{v}*' if v != 1 else '') + a for a, v in sorted(self.coef.items())]
+        if self.const or not parts:
+            parts.append(str(self.const))
+        return ' + '.join(parts)
+
+
+def upper_bounds(fn: pf.FuncDef, e: ast.AST, depth: int = 8, limit: int = 64) -> List[UB]:
+    """Symbolic upper bounds of a NON-NEGATIVE numeric expression of `fn`, each valid for every value of the parameters:
+         x                     <= x                      and <= every bound of its single local definition
+         min(a, b, ..)         <= every bound of every argument
+         max(a, b, ..)         <= a bound shared by all arguments
+         a // k, a / k, a >> k <= bounds(a) / k          (k a positive constant; `>> k` divides by 2**k)
+         a * k                 <= bounds(a) * k
+         a + b                 <= bound(a) + bound(b)
+         randrange(n)          <= bounds(n) - 1          randint(a, b) / uniform(a, b) <= bounds(b)      random() * x <= bounds(x)
+         int(x), floor(x)      <= bounds(x)              round(x), ceil(x) <= bounds(x) + 1
+       anything else is its own atom.  The derivation only ever weakens (every listed form IS an upper bound), so
+       `any(b.below('max_delay_ms'))` is a proof that the value never exceeds the parameter."""
+    params = {a.arg for a in fn.args.posonlyargs + fn.args.args + fn.args.kwonlyargs}
+
+    def const_of(x: ast.AST) -> Optional[Fraction]:
+        if isinstance(x, ast.Constant) and isinstance(x.value, (int, float)) and not isinstance(x.value, bool):
+            return Fraction(str(x.value))
+        return None
+
+    def dedupe(bs: List[UB]) -> List[UB]:
+        seen = {}
+        for b in bs:
+            seen.setdefault(b.key(), b)
+        return list(seen.values())[:limit]
+
+    def go(x: ast.AST, d: int) -> List[UB]:
+        own = UB({pf.nsrc(x): Fraction(1)})
+        c = const_of(x)
+        if c is not None:
+            return [UB({}, c)]
+        if d <= 0:
+            return [own]
+        if isinstance(x, ast.Name):
+            out = [own]
+            if x.id not in params:
+                dd = pf.single_def(fn, x.id)
+                if isinstance(dd, ast.expr):
+                    out += go(dd, d - 1)
+            return dedupe(out)
+        if isinstance(x, ast.Call) and not x.keywords:
+            name = pf.dotted(x.func) or ''
+            if name == 'min' and len(x.args) >= 2:
+                return dedupe([b for a in x.args for b in go(a, d - 1)])
+            if name == 'max' and len(x.args) >= 2:
+                per = [go(a, d - 1) for a in x.args]
+                shared = [b for b in per[0] if all(any(b.key() == o.key() for o in other) for other in per[1:])]
+                return dedupe(shared + [own])
+            if name in ('random.randrange', 'randrange') and len(x.args) == 1:
+                return dedupe([b + UB({}, Fraction(-1)) for b in go(x.args[0], d - 1)] + [own])
+            if name in ('random.randint', 'randint', 'random.uniform', 'uniform') and len(x.args) == 2:
+                return dedupe(go(x.args[1], d - 1) + [own])
+            if name in ('int', 'float', 'math.floor', 'floor') and len(x.args) == 1:
+                return dedupe(go(x.args[0], d - 1) + [own])
+            if name in ('round', 'math.ceil', 'ceil') and len(x.args) == 1:
+                return dedupe([b + UB({}, Fraction(1)) for b in go(x.args[0], d - 1)] + [own])
+            return [own]
+        if isinstance(x, ast.BinOp):
+            if isinstance(x.op, (ast.FloorDiv, ast.Div, ast.RShift)):
+                k = const_of(x.right)
+                if k is not None and k > 0 and (not isinstance(x.op, ast.RShift) or k.denominator == 1 and k <= 64):
+                    div = Fraction(2) ** int(k) if isinstance(x.op, ast.RShift) else k
+                    return dedupe([b.scale(1 / div) for b in go(x.left, d - 1)] + [own])
+                return [own]
+            if isinstance(x.op, ast.Mult):
+                for a, b in ((x.left, x.right), (x.right, x.left)):
+                    k = const_of(b)
+                    if k is not None and k >= 0:
+                        return dedupe([u.scale(k) for u in go(a, d - 1)] + [own])
+                    if isinstance(b, ast.Call) and pf.dotted(b.func) in ('random.random',) and not b.args:
+                        return dedupe(go(a, d - 1) + [own])
+                return [own]
+            if isinstance(x.op, ast.Add):
+                ls, rs = go(x.left, d - 1), go(x.right, d - 1)
+                return dedupe([a + b for a in ls for b in rs] + [own])
+            return [own]
+        return [own]
+    return go(e, depth)
+
+
+def depends_on(fn: pf.FuncDef, e: ast.AST, name: str) -> bool:
+    """Does the value of `e` depend (through local definitions of fn, transitively) on the name `name`?"""
+    seen: Set[str] = set()
+    todo = [e]
+    while todo:
+        x = todo.pop()
+        for n in ast.walk(x):
+            if isinstance(n, ast.Name) and isinstance(n.ctx, ast.Load):
+                if n.id == name:
+                    return True
+                if n.id not in seen:
+                    seen.add(n.id)
+                    for d in pf.assignments(fn).get(n.id, []):
+                        todo.append(d)
+    return False
